@@ -17,7 +17,7 @@ Inductive tstate :=
 | TCol (r : Z) (b : nat)                                                                  (* Collect begun, lock not yet taken *)
 | TPass (r : Z) (b : nat) (snap : list entry) (called : list key) (todo : list entry)     (* inside the pass, lock held *)
 | TInCb (r : Z) (b : nat) (snap : list entry) (called : list key) (k : key) (pc : nat) (todo : list entry)   (* inside callback k *)
-| TColU (r : Z) (b : nat)                                                                 (* pass over, lock released *)
+| TColU (r : Z) (b : nat) (snap : list entry)                                             (* pass over, lock released *)
 | TAdd (k : key) (b : nat) | TAddL (k : key) (b : nat) | TAddU (k : key) (b : nat)
 | TRem (k : key) (b : nat) | TRemL (k : key) (b : nat) | TRemU (k : key) (b : nat)
 | TDes (i : nat) (b : nat) | TDesL (i : nat) (b : nat) | TDesU (i : nat) (b : nat).
@@ -68,13 +68,13 @@ Definition accept (st : lstate) (e : ev) : option lstate :=
   | EUnlock t =>
       let rel := fun x => Some (mk_l (S n) (l_regs st) None (setthr (l_thr st) t x)) in
       match l_thr st t with
-      | TPass r b _ _ [] => rel (TColU r b)
+      | TPass r b snap _ [] => rel (TColU r b snap)
       | TAddL k b => rel (TAddU k b)
       | TRemL k b => rel (TRemU k b)
       | TDesL i b => rel (TDesU i b)
       | _ => None
       end
-  | EEC t r => match l_thr st t with TColU r' _ => if r' =? r then upd t TIdle else None | _ => None end
+  | EEC t r => match l_thr st t with TColU r' _ _ => if r' =? r then upd t TIdle else None | _ => None end
   | ERA t k => match l_thr st t with TAddU k' _ => if key_eqb k' k then upd t TIdle else None | _ => None end
   | ERR t k => match l_thr st t with TRemU k' _ => if key_eqb k' k then upd t TIdle else None | _ => None end
   | ERX t i => match l_thr st t with TDesU i' _ => if Nat.eqb i' i then upd t TIdle else None | _ => None end
